@@ -1,5 +1,6 @@
 import KoordVerif.Model.C13
 import KoordVerif.Generated.C13
+import KoordVerif.Model.C13Status
 /-
 Tie lemmas: the class names, the name ↦ class switches, the priority ranges with their guard order,
 the QoS ↦ default-class and Kubernetes-QoS ↦ QoS tables, the forbidden (QoS, priority class) pairs,
@@ -157,5 +158,14 @@ theorem tie_validating_checks :
     Generated.C13.updateGatedChecks = ["!ColocationProfileSkipValidatingPriority,DefaultFeatureGate,Enabled:validateImmutablePriority"] ∧
     Generated.C13.alwaysChecks = ["validateRequiredQoSClass", "forbidSpecialQoSClassAndPriorityClass",
       "forbidSpecialQoSClassAndPriorityClass", "validateResources"] := by decide
+
+/-- the two resource validators read the pod's request through util.GetPodRequest, which calls the k8s helper PodRequests
+    with an options literal that sets NO field — in particular not UseStatusResources: the request is the one the SPEC
+    declares, a resize status decides nothing (the model's `getPodRequestUsesStatus = false`, Model/C13Status.lean). -/
+theorem tie_pod_request_options :
+    Generated.C13.requestReaders = ["validateRequiredQoSClass:GetPodRequest", "validateResources:GetPodRequest"] ∧
+    Generated.C13.podRequestHelper = "PodRequests" ∧
+    Generated.C13.podRequestOptions = [] ∧
+    getPodRequestUsesStatus = false := by decide
 
 end KoordVerif.C13
